@@ -436,10 +436,11 @@ class ProgGen(object):
     # growth control: inside loops (and once values are large) a string expression has at most one non-literal
     # leaf and a product has a literal factor, so sizes grow linearly in the number of executed statements
     def tight_str(self):
-        return self.loop_depth > 0 or self.str_bound > 3000
+        # a callable body runs many times on a persistent population: always tight there
+        return self.loop_depth > 0 or self.str_bound > 3000 or self.ret_ty != 'any'
 
     def tight_int(self):
-        return self.loop_depth > 0 or self.int_bits > 2000
+        return self.loop_depth > 0 or self.int_bits > 2000 or self.ret_ty != 'any'
 
     def note_value(self, ty, e):
         if self.loop_depth > 0:
@@ -789,7 +790,7 @@ class ProgGen(object):
             self.declare(z, V('inst', 'A', True))
             if strs:
                 cat = strs[0]
-                for e in strs[1:5]:
+                for e in strs[1:(1 if self.tight_str() else 5)]:
                     cat = ['bin', '+', ['bin', '+', cat, ['str', '|']], e]
                 out.append(['setattr', ['var', z], 's', cat])
             if bools:
@@ -819,7 +820,7 @@ class ProgGen(object):
                 out.append(['return', total])
             elif self.ret_ty == 'string':
                 cat = ['str', 'r']
-                for e in strs[:5]:
+                for e in strs[:1]:
                     cat = ['bin', '+', ['bin', '+', cat, ['str', '|']], e]
                 out.append(['return', cat])
             elif self.ret_ty == 'boolean':
